@@ -28,3 +28,19 @@ package rpc
 //@   noframe
 //@   requires !$Proxied
 //@   ensures !s.authDisabled ==> $Proxied && $RegisteredProxy
+
+// The HTTP handler stack. $AuthWrapped: the RPC handler was wrapped in the auth handler (which attaches
+// the permissions verifyAuth returns and refuses malformed Authorization headers). With authentication
+// enabled every request goes through it - with or without a CORS configuration; with authentication
+// disabled none does, so that no credential of any form can make a method unreachable.
+//@ func (*Server).authHandler
+//@   property C19
+//@   trusted
+//@   effect $AuthWrapped := true
+
+//@ func (*Server).newHandlerStack
+//@   property C19
+//@   noframe
+//@   requires s != nil && !$AuthWrapped
+//@   havoc $AuthWrapped
+//@   ensures $AuthWrapped <==> !old(s.authDisabled)
